@@ -21,6 +21,8 @@
 #include <unifex/sync_wait.hpp>
 
 #include <atomic>
+#include <exception>
+#include <type_traits>
 #include <vector>
 
 namespace {
@@ -119,5 +121,103 @@ SCENARIO(pool_bulk_one_worker) { direct(8, 1, false); }
 SCENARIO(pool_bulk_two_chunks) { direct(unifex::bulk_cancellation_chunk_size + 2, 2, false); }
 SCENARIO(pool_bulk_empty) { direct(0, 1, false); }
 SCENARIO(pool_composed) { composed(unifex::bulk_cancellation_chunk_size + 2, 2, 3); }
+
+
+// ---------------------------------------------------------------------------------------------------
+// execution-policy scenarios: a bulk source that HONOURS the policy advertised by its receiver (two managed
+// threads deliver the two halves of the index space when the policy permits parallel execution, else the
+// calling thread delivers everything) below bulk_transform(f, P) below a receiver with policy R.
+// History: "seen <policy>" (what the source saw = decltype(get_execution_policy(receiver))), "value".
+// Monitor: f invoked concurrently although P does not permit parallel execution.
+namespace {
+
+template <typename P>
+const char* policy_name() {
+  if (std::is_same_v<P, unifex::sequenced_policy>) return "seq";
+  if (std::is_same_v<P, unifex::unsequenced_policy>) return "unseq";
+  if (std::is_same_v<P, unifex::parallel_policy>) return "par";
+  if (std::is_same_v<P, unifex::parallel_unsequenced_policy>) return "par_unseq";
+  return "?";
+}
+
+template <typename Receiver>
+struct honouring_op {
+  Receiver r;
+  std::size_t n;
+  void start() noexcept {
+    using policy_t = unifex::remove_cvref_t<decltype(unifex::get_execution_policy(r))>;
+    rt::obs("seen %s", policy_name<policy_t>());
+    if constexpr (std::is_same_v<policy_t, unifex::parallel_policy> || std::is_same_v<policy_t, unifex::parallel_unsequenced_policy>) {
+      int a = rt::spawn([&] { for (std::size_t i = 0; i < n / 2; ++i) unifex::set_next(r, std::size_t(i)); });
+      int b = rt::spawn([&] { for (std::size_t i = n / 2; i < n; ++i) unifex::set_next(r, std::size_t(i)); });
+      rt::join(a);
+      rt::join(b);
+    } else {
+      for (std::size_t i = 0; i < n; ++i) unifex::set_next(r, std::size_t(i));
+    }
+    unifex::set_value(std::move(r));
+  }
+};
+
+struct honouring_source {
+  std::size_t n;
+  template <template <typename...> class Variant, template <typename...> class Tuple>
+  using value_types = Variant<Tuple<>>;
+  template <template <typename...> class Variant, template <typename...> class Tuple>
+  using next_types = Variant<Tuple<std::size_t>>;
+  template <template <typename...> class Variant>
+  using error_types = Variant<std::exception_ptr>;
+  static constexpr bool sends_done = false;
+  template <typename Receiver>
+  friend honouring_op<unifex::remove_cvref_t<Receiver>> tag_invoke(unifex::tag_t<unifex::connect>, honouring_source s, Receiver&& r) {
+    return honouring_op<unifex::remove_cvref_t<Receiver>>{(Receiver&&)r, s.n};
+  }
+};
+
+template <typename Policy>
+struct PolicyReceiver {
+  bool* done;
+  template <typename... A>
+  void set_next(A&&...) & noexcept {}
+  void set_value() && noexcept { *done = true; rt::obs("value"); }
+  void set_done() && noexcept { *done = true; rt::obs("done"); }
+  template <typename E>
+  void set_error(E&&) && noexcept { *done = true; rt::obs("error"); }
+  friend Policy tag_invoke(unifex::tag_t<unifex::get_execution_policy>, const PolicyReceiver&) noexcept { return {}; }
+};
+
+// receiver policy R (or bulk_join when Join), function policy P
+template <typename R, typename P, bool Join>
+void policy_scenario() {
+  constexpr std::size_t n = 4;
+  constexpr bool par_ok = std::is_same_v<P, unifex::parallel_policy> || std::is_same_v<P, unifex::parallel_unsequenced_policy>;
+  int inside = 0, calls = 0;
+  std::vector<int> seen(n, 0);
+  auto f = [&](std::size_t i) noexcept {
+    if (inside++ && !par_ok) rt::fail("function registered with policy %s invoked concurrently", policy_name<P>());
+    rt::point("in-bulk-function");
+    ++calls;
+    if (i < n) ++seen[i];
+    --inside;
+  };
+  auto snd = unifex::bulk_transform(honouring_source{n}, f, P{});
+  if constexpr (Join) {
+    auto r = unifex::sync_wait(unifex::bulk_join(std::move(snd)));
+    rt::obs("%s", r.has_value() ? "value" : "done");
+  } else {
+    bool done = false;
+    auto op = unifex::connect(std::move(snd), PolicyReceiver<R>{&done});
+    unifex::start(op);
+    if (!done) rt::fail("no terminal signal");
+  }
+  for (std::size_t i = 0; i < n; ++i) if (seen[i] != 1) rt::fail("index %zu delivered to the function %d times", i, seen[i]);
+}
+
+}  // namespace
+
+SCENARIO(policy_seq_over_join) { policy_scenario<void, unifex::sequenced_policy, true>(); }
+SCENARIO(policy_unseq_over_par_unseq) { policy_scenario<unifex::parallel_unsequenced_policy, unifex::unsequenced_policy, false>(); }
+SCENARIO(policy_par_over_join) { policy_scenario<void, unifex::parallel_policy, true>(); }
+SCENARIO(policy_par_over_seq) { policy_scenario<unifex::sequenced_policy, unifex::parallel_policy, false>(); }
 
 RT_MAIN()
